@@ -184,6 +184,36 @@ class FalsyNM(Hooks, NodeMixin):
         return "FalsyNM(%s)" % (self.name,)
 
 
+class IterNM(Hooks, NodeMixin):
+    """Mapping-like node (as in the docstring of tests/test_special_methods_access.py): iterable over its
+    descendants, sized, indexable by name."""
+
+    def __init__(self, name, key=0):
+        self.name = name
+        self.key = key
+
+    def __iter__(self):
+        for child in self.children:
+            yield child
+            for item in child:
+                yield item
+
+    def __len__(self):
+        return len(list(iter(self)))
+
+    def __getitem__(self, name):
+        for child in self:
+            if child.name == name:
+                return child
+        raise KeyError(name)
+
+    def __contains__(self, name):
+        return any(child.name == name for child in self)
+
+    def __repr__(self):
+        return "IterNM(%s)" % (self.name,)
+
+
 class FalsyLM(Hooks, LightNodeMixin):
     """Always falsy, also as a parent that has children."""
 
@@ -236,7 +266,7 @@ class FalsyNode(Hooks, Node):
         return False
 
 
-FAMILIES = ("NM", "LM", "Node", "AnyNode", "MIX", "VALNM", "VALLM", "FALSY", "FALSYLM", "FALSYANY", "FALSYNODE")
+FAMILIES = ("NM", "LM", "Node", "AnyNode", "MIX", "VALNM", "VALLM", "FALSY", "FALSYLM", "FALSYANY", "FALSYNODE", "ITER")
 
 
 def base_family(family):
@@ -256,6 +286,8 @@ def make_nodes(family, k):
         return [ValNM("n%d" % i, i % 2) for i in range(k)]
     if family == "VALLM":
         return [ValLM("n%d" % i, i % 2) for i in range(k)]
+    if family == "ITER":
+        return [IterNM("n%d" % i, i % 2) for i in range(k)]
     if family == "FALSYLM":
         return [FalsyLM("n%d" % i, i % 2) for i in range(k)]
     if family == "FALSYANY":
